@@ -28,10 +28,12 @@ PKG = "yv-c08"
 
 TIERS = {
     # cfgs: exhaustive catalogues; sim: (num per worker, workers, depth); harness exploration options
-    "quick": {"cfgs": ["MC_Subshell_quick.cfg", "MC_Subshell_all1.cfg", "MC_Subshell_trap1.cfg"], "sim": (100, 4, 40),
+    "quick": {"cfgs": ["MC_Subshell_quick.cfg", "MC_Subshell_all1.cfg", "MC_Subshell_trap1.cfg",
+                       "MC_Subshell_wide1.cfg", "MC_Subshell_ends1.cfg"], "sim": (100, 4, 40),
               "explore": ["--plans", "6", "--dfs-max", "2", "--random", "0"],
               "explore_sim": ["--plans", "8", "--dfs-max", "2", "--random", "1"]},
-    "thorough": {"cfgs": ["MC_Subshell_all2.cfg", "MC_Subshell_core3.cfg", "MC_Subshell_trap2.cfg"], "sim": (2000, 4, 40),
+    "thorough": {"cfgs": ["MC_Subshell_all2.cfg", "MC_Subshell_core3.cfg", "MC_Subshell_trap2.cfg",
+                          "MC_Subshell_wide2.cfg", "MC_Subshell_ends2.cfg"], "sim": (2000, 4, 40),
                  "explore": ["--plans", "12", "--dfs-max", "3", "--random", "1"],
                  "explore_sim": ["--plans", "16", "--dfs-max", "3", "--random", "2"]},
 }
@@ -205,7 +207,7 @@ def run(tier):
     r = vlib.tlc("Subshell", "MC_Subshell_sim.cfg", workers=workers, json_out=cat, simulate=num, depth=depth,
                  tool_seed=vlib.seed(), timeout=1200)
     vlib.tlc_must_pass(r, "simulation MC_Subshell_sim.cfg")
-    n_sim = _dedup(cat)
+    n_sim = _dedup(cat, cap=(600 if tier == "quick" else 12000))
     rec = os.path.join(wd, "sim.records.ndjson")
     t1 = time.time()
     st = _harness(cat, rec, cfg["explore_sim"])
